@@ -592,7 +592,9 @@ func c15Locks(c *Check) {
 	}
 	// the memory store's map and session fields are written under the exclusive lock only: a write under a shared
 	// (read) lock is a `fatal error: concurrent map writes`, which no recover() catches (C12.R1)
-	importObls(c, "C12", checkC12, "C15.R6", func(o *Obligation) bool { return strings.HasPrefix(o.Key, "C12.R1/locked") })
+	importObls(c, "C12", checkC12, "C15.R6", func(o *Obligation) bool {
+		return strings.HasPrefix(o.Key, "C12.R1/locked") || strings.HasPrefix(o.Key, "C12.R1/relock") || strings.HasPrefix(o.Key, "C12.R1/unlock-missing")
+	})
 	if n == 0 {
 		c.Pass("C15.R6", "no-return-holding-a-lock", "-", "no own function returns with a mutex held and no deferred unlock")
 	}
